@@ -284,8 +284,15 @@ class FunctorPool:
         return self
 
     def __exit__(self, exc_type=None, exc_val=None, exc_tb=None):
-        for _ in range(len(self.procs)):
-            self._work_queue.put(None)
+        # one stop token for every worker that is still running; a worker that has already ended (e.g. it retired at the
+        # very end of the last call) takes none, so do not wait for room in a bounded work queue that nobody reads any more
+        for _ in range(sum(1 for p in self.procs if p.is_alive())):
+            while any(p.is_alive() for p in self.procs):
+                try:
+                    self._work_queue.put(None, timeout=self.RESULTS_WAIT_TIMEOUT)
+                    break
+                except queue.Full:
+                    pass
         for p in self.procs:
             if p.exitcode is None:
                 p.join(timeout=self.join_timeout)
